@@ -21,7 +21,8 @@ func init() {
 			"context, the 'plus one'). Rawness is propagated interprocedurally from the exported entry points through resolved calls. Today's tree " +
 			"violates R1c at the error completions of the schedule*/asyncAccept functions (object closed / registration refused), reached with the raw " +
 			"callback through the at-limit branch (always, for AsyncAdapter): recorded as known findings, one key per call site. " +
-			"Not decided: that a deferred operation yields the same result on every descriptor kind (kernel), user callbacks that panic.",
+			"(R2) an object built on a descriptor from open(2) - regular files are not pollable, epoll_ctl refuses them with EPERM - needs a deferral route that does not depend on the registration; file.scheduleRead/scheduleWrite have none, so on a regular file the operation deferred at the limit completes with EPERM instead of its data (known finding D28, confirmed with a probe). " +
+			"Not decided: that a deferred operation yields the same result on the pollable descriptor kinds (kernel), user callbacks that panic.",
 		Run: runC14,
 	})
 	addMutants("C14",
@@ -355,6 +356,89 @@ func runC14(c *Ctx) {
 	}
 	_ = n
 	_ = strings.Contains
+
+	// ------------------------------------------------------------------------------------------------ R2
+	c.rule("C14-R2", "the deferred path serves every descriptor kind a constructor can produce: an object built on a descriptor from open(2) (regular files are never pollable: epoll_ctl fails with EPERM) has a deferral route that does not need the registration to succeed", 2)
+	{
+		sysOpen := p.ExtFunc("syscall", "Open")
+		ioPost := p.Method("sonic", "IO", "Post")
+		e := newE2(p)
+		// types that wrap a descriptor obtained from open(2)
+		pathOpened := map[string]bool{}
+		for _, fn := range p.Funcs {
+			for _, oc := range callsTo(fn, sysOpen) {
+				fd := extractOfInstr(oc.(ssa.Instruction), 0)
+				if fd == nil {
+					continue
+				}
+				eachInstr(fn, func(in ssa.Instruction) {
+					call, ok := in.(*ssa.Call)
+					if !ok || call.Call.StaticCallee() == nil || !e.inScope(call.Call.StaticCallee()) {
+						return
+					}
+					uses := false
+					for _, a := range call.Call.Args {
+						if stripConv(a) == fd {
+							uses = true
+						}
+					}
+					if !uses {
+						return
+					}
+					res := call.Call.StaticCallee().Signature.Results()
+					for i := 0; i < res.Len(); i++ {
+						t := res.At(i).Type()
+						if pt, ok := t.(*types.Pointer); ok {
+							t = pt.Elem()
+						}
+						if n, ok := t.(*types.Named); ok && n.Obj().Pkg() != nil {
+							pathOpened[n.Obj().Pkg().Path()+"."+n.Obj().Name()] = true
+						}
+					}
+				})
+			}
+		}
+		if len(pathOpened) == 0 {
+			c.bad(p.Fn("sonic", "Open"), "open(2) owner", p.Fn("sonic", "Open").Pos(), "no object type built on a descriptor from open(2) was found (anchor moved)")
+		}
+		for _, fn := range p.Funcs {
+			pk, tn := recvTypeName(fn)
+			if !pathOpened[pk+"."+tn] {
+				continue
+			}
+			eachInstr(fn, func(in ssa.Instruction) {
+				dir := e.regDir(in)
+				if dir == "" {
+					return
+				}
+				// is there a route that does not depend on the registration: a Post on its failing edge?
+				alt := false
+				for _, ifi := range regResultTests(in.(ssa.CallInstruction)) {
+					cond, pos := normLit(ifi.Cond, true)
+					bo, ok := cond.(*ssa.BinOp)
+					if !ok {
+						continue
+					}
+					failSucc := ifi.Block().Succs[0]
+					if (bo.Op == token.EQL) == pos {
+						failSucc = ifi.Block().Succs[1]
+					}
+					for _, b := range fn.Blocks {
+						if !failSucc.Dominates(b) {
+							continue
+						}
+						for _, x := range b.Instrs {
+							if isCallToFn(x, ioPost) {
+								alt = true
+							}
+						}
+					}
+				}
+				c.check(alt, fn, "non-pollable descriptor "+dir, in.Pos(), "a refused registration falls back to a deferral that needs no poller interest",
+					"the operation deferred at the dispatch limit is parked only through epoll registration, which the kernel refuses (EPERM) for the regular files sonic.Open can return: the deferred "+dir+" completes with the registration error instead of the result it would have had inline")
+			})
+		}
+	}
 }
 
 // describeCallArgs renders the shape of a completion call for the construct key: which arguments are nil/zero
